@@ -446,14 +446,18 @@ func hasDupKeys(o *JV) bool {
 // insertUnknown adds properties the decoder does not know, at several depths.
 func insertUnknown(r *rng, kind string, d JV, g *gen) JV {
 	out := cloneJV(d)
-	objs := allObjects(kind, &out)
 	n := 1 + r.intn(4)
 	for i := 0; i < n; i++ {
+		objs := allObjects(kind, &out) // re-collected: an insertion moves nested objects
 		o := pick(r, objs)
 		name := pick(r, []string{"zzUnknown", "_extra", "newProperty", "Key", "ON", "values2"})
 		val := g.value(0)
 		pos := r.intn(len(o.o.O) + 1)
-		o.o.O = append(o.o.O[:pos], append([]KV{{name, val}}, o.o.O[pos:]...)...)
+		no := make([]KV, 0, len(o.o.O)+1)
+		no = append(no, o.o.O[:pos]...)
+		no = append(no, KV{name, val})
+		no = append(no, o.o.O[pos:]...)
+		o.o.O = no
 	}
 	return out
 }
@@ -562,8 +566,8 @@ func omitVsDefault(r *rng, kind string, d JV) (JV, JV, string, bool) {
 // corrupt makes structurally arbitrary changes (no expected relation except model = code).
 func corrupt(r *rng, kind string, d JV, g *gen) JV {
 	out := cloneJV(d)
-	objs := allObjects(kind, &out)
 	for i, n := 0, 1+r.intn(3); i < n; i++ {
+		objs := allObjects(kind, &out)
 		o := pick(r, objs)
 		if len(o.o.O) == 0 {
 			continue
@@ -571,7 +575,7 @@ func corrupt(r *rng, kind string, d JV, g *gen) JV {
 		j := r.intn(len(o.o.O))
 		switch r.intn(6) {
 		case 0: // drop
-			o.o.O = append(o.o.O[:j], o.o.O[j+1:]...)
+			o.o.O = append(append([]KV{}, o.o.O[:j]...), o.o.O[j+1:]...)
 		case 1: // null
 			o.o.O[j].V = jNull()
 		case 2: // wrong type / arbitrary value
@@ -581,7 +585,7 @@ func corrupt(r *rng, kind string, d JV, g *gen) JV {
 			if r.bool() {
 				kv.V = g.value(0)
 			}
-			o.o.O = append(o.o.O, kv)
+			o.o.O = append(append([]KV{}, o.o.O...), kv)
 		case 4: // numeric oddities
 			o.o.O[j].V = jNum(pick(r, []float64{1.5, -1, -0.5, 1e30, -1e30, 9223372036854775808, 18446744073709551616, 4294967296.5, -1024, 0}))
 		case 5: // rename to a known name of this object type
